@@ -930,6 +930,8 @@ func init() { core.Register("C36", genC36, runC36) }
 
 // ---- rider: scheduler arithmetic (pure function of the weight vector) ----
 
+type c36Stuck struct{}
+
 var c36NoMetrics = istats.NewMetricsRecorderList(nil)
 
 func c36RunRider(e *core.Env, rd *c36Rider) {
@@ -981,7 +983,22 @@ func c36RunRider(e *core.Env, rd *c36Rider) {
 	// same weights, same nextIndex, but a plain counter as the sequence source
 	// (no atomics: the rider needs no scheduling points)
 	ctr := rd.Start
-	inc := func() uint32 { ctr++; return ctr }
+	inPick := 0
+	inc := func() uint32 {
+		ctr++
+		if inPick++; inPick > 8*n+64 {
+			panic(c36Stuck{})
+		}
+		return ctr
+	}
+	defer func() {
+		if r := recover(); r != nil {
+			if _, ok := r.(c36Stuck); !ok {
+				panic(r)
+			}
+			e.Violate("rider_pick_terminates", "weights %v (%s): a pick from sequence number %d did not terminate within %d sequence numbers (n=%d)", rd.Weights, c36SchedString(sch), ctr-uint32(inPick), inPick, n)
+		}
+	}()
 	var run scheduler
 	switch o := sch.(type) {
 	case *edfScheduler:
@@ -995,6 +1012,7 @@ func c36RunRider(e *core.Env, rd *c36Rider) {
 	counts := make([]uint64, n)
 	// synchronise with a picked position first, then count
 	run.nextIndex()
+	inPick = 0
 	start := ctr
 	prev := start
 	for k := 0; ; k++ {
@@ -1005,6 +1023,7 @@ func c36RunRider(e *core.Env, rd *c36Rider) {
 		} else if k >= picks {
 			break
 		}
+		inPick = 0
 		i := run.nextIndex()
 		cur := ctr
 		if i < 0 || i >= n {
